@@ -3713,3 +3713,126 @@ func ruleR18_16(p *Program, r *Report) {
 		r.Undecided("R18.16", "readers", "-", "some function reads cpu.ArchLevel", "none found")
 	}
 }
+
+// registration of asm_lost.go's rule
+func init() {
+	extend("C18", Rule{ID: "R18.17", Configs: "asm", Run: ruleR18_17},
+		"(R18.17) no lost update in the assembly routines: for every register a routine writes back into a Go object or result slot, an accumulating update of it (an instruction that reads and writes the register) reaches a use of the register on every path before the register is reloaded from a vector or mask register - an exit path that reloads the bit accumulator from its stale vector copy loses the bits of the last codes.")
+}
+
+// ---------- R17.5: objects published in package variables are immutable ----------
+
+func init() {
+	extend("C17", Rule{ID: "R17.5", Configs: "all", Run: ruleR17_5},
+		"(R17.5) objects published through package variables are immutable: when package initialisation stores a pointer to a repository struct type T in a package variable (directly or inside an interface, as an error sentinel), no function outside initialisation stores into a field of T through a pointer that is not a fresh allocation of the same function. The checker has no pointer analysis; this is the type-based approximation (any *T may be the shared object), so a T that is also used for per-instance objects written through parameters would be reported - there is none today.")
+	controlRegistry["C17"] = append(controlRegistry["C17"], Control{Rule: "R17.5", Run: ruleR17_5, MustFire: []string{"markSentinel"}})
+}
+
+func ruleR17_5(p *Program, r *Report) {
+	r.Expect("R17.5", 1)
+	// struct types a pointer to which is stored in a package variable
+	shared := map[*types.Named]*ssa.Global{}
+	note := func(t types.Type, g *ssa.Global) {
+		if pt, ok := t.Underlying().(*types.Pointer); ok {
+			if n := derefNamed(pt); n != nil {
+				if _, isS := n.Underlying().(*types.Struct); isS && n.Obj().Pkg() != nil && strings.HasPrefix(n.Obj().Pkg().Path(), modPathOf(p)) {
+					shared[n] = g
+				}
+			}
+		}
+	}
+	globals := 0
+	for _, sp := range p.SSA {
+		for _, m := range sp.Members {
+			if g, ok := m.(*ssa.Global); ok {
+				globals++
+				note(g.Type().(*types.Pointer).Elem(), g)
+			}
+		}
+		if ini := sp.Func("init"); ini != nil {
+			var visit func(f *ssa.Function)
+			visit = func(f *ssa.Function) {
+				for _, b := range f.Blocks {
+					for _, in := range b.Instrs {
+						st, ok := in.(*ssa.Store)
+						if !ok {
+							continue
+						}
+						g, ok := st.Addr.(*ssa.Global)
+						if !ok {
+							continue
+						}
+						v := st.Val
+						if mi, ok := v.(*ssa.MakeInterface); ok {
+							v = mi.X
+						}
+						note(v.Type(), g)
+					}
+				}
+			}
+			visit(ini)
+		}
+	}
+	n := 0
+	for _, fn := range p.Funcs() {
+		if fn.Name() == "init" || strings.HasPrefix(fn.Name(), "init#") {
+			continue
+		}
+		lab := newLabeler()
+		for _, b := range fn.Blocks {
+			for _, in := range b.Instrs {
+				st, ok := in.(*ssa.Store)
+				if !ok {
+					continue
+				}
+				// innermost struct pointer the store goes through
+				var base ssa.Value
+				var T *types.Named
+				for a := st.Addr; a != nil; {
+					switch x := a.(type) {
+					case *ssa.FieldAddr:
+						if nm := derefNamed(x.X.Type()); nm != nil && shared[nm] != nil {
+							base, T = x.X, nm
+						}
+						a = x.X
+					case *ssa.IndexAddr:
+						a = x.X
+					default:
+						a = nil
+					}
+				}
+				if T == nil {
+					continue
+				}
+				if _, fresh := base.(*ssa.Alloc); fresh {
+					continue
+				}
+				n++
+				r.Fail("R17.5", shortFn(fn)+"|"+lab.get("store into "+T.Obj().Name()), p.InstrPos(st), "no field of an object published in a package variable is written after initialisation", "stores into a field of "+typeString(T)+", a pointer to which is held by the package variable "+shared[T].Name()+": every user of that variable shares the write")
+			}
+		}
+	}
+	if n == 0 {
+		names := []string{}
+		for t := range shared {
+			names = append(names, t.Obj().Name())
+		}
+		sort.Strings(names)
+		r.OK("R17.5", "census", "-", "no store into a field of a struct type published through a package variable ("+itoa(globals)+" package variables, published struct types: ["+strings.Join(names, " ")+"])")
+	}
+}
+
+func modPathOf(p *Program) string {
+	for _, sp := range p.SSA {
+		path := sp.Pkg.Path()
+		if strings.HasPrefix(path, modPath) {
+			return modPath
+		}
+		// the control module has its own module path: everything loaded as source belongs to it
+		if i := strings.Index(path, "/"); i > 0 {
+			return path[:i]
+		}
+		return path
+	}
+	return modPath
+}
